@@ -403,7 +403,7 @@ func verifSR(ntpSec uint32, rtpTime uint32) *Packet {
 func VerifPtsAcrossSenderReports() {
 	w := &verifRecWriter{}
 	dp := verifNewH264(w)
-	base := []uint32{0, 90000, 0xffff0000}[symapi.Choose("rtpBase", 3)]
+	base := []uint32{0, 90000, 0xffff0000, 0xffffffff - 2*3000 + 1000}[symapi.Choose("rtpBase", 4)]
 	step := []uint32{3000, 3600, 90000}[symapi.Choose("step", 3)]
 	nal := []byte{0x41, 1, 2, 3}
 	srAt := [3]bool{symapi.Bool("srBeforeFirst"), symapi.Bool("srBeforeSecond"), symapi.Bool("srBeforeThird")}
@@ -429,6 +429,17 @@ func VerifPtsAcrossSenderReports() {
 	for i := 1; i < 3; i++ {
 		d := pts[i] - pts[i-1]
 		symapi.Assert(d >= want-1 && d <= want+1, "presentation-time-difference-equals-rtp-timestamp-difference")
+	}
+	// a B picture follows in transmission order with an EARLIER presentation time (RTP
+	// timestamp between the last two, possibly on the other side of the 32-bit wrap)
+	if symapi.Bool("reorderedPicture") {
+		before := len(w.frames)
+		back := step / 2
+		dp.Depacketize(verifPkt(append([]byte(nil), nal...), 200, base+2*step-back))
+		symapi.Assert(len(w.frames) > before, "unit-emitted")
+		d := w.frames[before].Pts - pts[2]
+		wantBack := -int64(float64(back) * unit)
+		symapi.Assert(d >= wantBack-1 && d <= wantBack+1, "earlier-presentation-time-of-a-reordered-picture-equals-the-rtp-difference")
 	}
 	symapi.Reach("end")
 }
